@@ -55,9 +55,12 @@ struct Scn {
     receive_once: bool,
     /// the object's packets carry no close-object flag (the object stays in the receiver while it has no FDT)
     no_close_flag: bool,
+    /// FLUTE version announced in EXT_FDT: 2 (RFC 6726) or 1 (RFC 3926 profile - flute's own sender stamps the same
+    /// NTP EXT_TIME in both profiles)
+    fdt_version: u8,
 }
 
-fn fdt_packets(tsi: u64, inst: &Inst, sct: bool, hi_only: bool, data_len: usize, md5: &str, e: usize, spread: f64) -> Vec<(f64, Vec<u8>)> {
+fn fdt_packets(tsi: u64, inst: &Inst, sct: bool, hi_only: bool, data_len: usize, md5: &str, e: usize, spread: f64, version: u8) -> Vec<(f64, Vec<u8>)> {
     let expires_ntp = (BASE as i64 + inst.expires) as u64 + NTP_UNIX_OFFSET;
     let xml = format!(
         "<?xml version=\"1.0\" encoding=\"UTF-8\"?>\n<FDT-Instance xmlns=\"urn:IETF:metadata:2005:FLUTE:FDT\" Expires=\"{}\" FEC-OTI-FEC-Encoding-ID=\"0\" FEC-OTI-Maximum-Source-Block-Length=\"64\" FEC-OTI-Encoding-Symbol-Length=\"{}\"><File TOI=\"{}\" Content-Location=\"file:///x/{}.bin\" Content-Length=\"{}\" Transfer-Length=\"{}\" Content-MD5=\"{}\"/></FDT-Instance>",
@@ -70,7 +73,7 @@ fn fdt_packets(tsi: u64, inst: &Inst, sct: bool, hi_only: bool, data_len: usize,
     let fti = Fti { fec: 0, l: x.len() as u64, e: fe as u16, b: 64, ..Default::default() };
     let mut out = vec![];
     for esi in 0..k {
-        let mut exts = vec![wire::ext_fdt(2, inst.id)];
+        let mut exts = vec![wire::ext_fdt(version, inst.id)];
         let sent_at = inst.ts_emit + if k > 1 { spread * esi as f64 / (k - 1) as f64 } else { 0.0 };
         if sct {
             let us = ((BASE as f64 + sent_at) * 1e6) as u64;
@@ -108,7 +111,7 @@ fn run(s: &Scn, skew: f64, data: &[u8]) -> Result<Outcome, util::PanicInfo> {
     // (receiver instant, packet)
     let mut timeline: Vec<(f64, Vec<u8>)> = vec![];
     for inst in &s.insts {
-        for (n, (sent_at, p)) in fdt_packets(tsi, inst, s.sct && !inst.no_sct, s.sct_hi_only, data.len(), &md5, e, s.fdt_spread).into_iter().enumerate() {
+        for (n, (sent_at, p)) in fdt_packets(tsi, inst, s.sct && !inst.no_sct, s.sct_hi_only, data.len(), &md5, e, s.fdt_spread, s.fdt_version).into_iter().enumerate() {
             timeline.push((sent_at + s.transit + skew + n as f64 * 1e-4, p));
         }
     }
@@ -254,7 +257,7 @@ fn main() {
                                             insts.push(Inst { id: 1, ts_emit: ts_obj + 1.0, expires, lists: true, no_sct: false });
                                             for receive_once in [true, false] {
                                                 for cleanup in [false, true] {
-                                                    scns.push(Scn { insts: insts.clone(), ts_obj, object_first, sct, sct_hi_only, check, transit, inband_fti, cleanup, fdt_spread: 0.0, receive_once, no_close_flag: true });
+                                                    scns.push(Scn { insts: insts.clone(), ts_obj, object_first, sct, sct_hi_only, check, transit, inband_fti, cleanup, fdt_spread: 0.0, receive_once, no_close_flag: true, fdt_version: 2 });
                                                 }
                                             }
                                             continue;
@@ -262,12 +265,16 @@ fn main() {
                                         _ => {}
                                     }
                                     for cleanup in [false, true] {
-                                        scns.push(Scn { insts: insts.clone(), ts_obj, object_first, sct, sct_hi_only, check, transit, inband_fti, cleanup, fdt_spread: 0.0, receive_once: true, no_close_flag: false });
+                                        scns.push(Scn { insts: insts.clone(), ts_obj, object_first, sct, sct_hi_only, check, transit, inband_fti, cleanup, fdt_spread: 0.0, receive_once: true, no_close_flag: false, fdt_version: 2 });
+                                    }
+                                    // single instance / renewed instance: also as a FLUTE v1 session (EXT_FDT version 1)
+                                    if variant == 0 || variant == 2 {
+                                        scns.push(Scn { insts: insts.clone(), ts_obj, object_first, sct, sct_hi_only, check, transit, inband_fti, cleanup: false, fdt_spread: 0.0, receive_once: true, no_close_flag: false, fdt_version: 1 });
                                     }
                                     // the single-instance, FDT-first scenarios also with an FDT of several packets received over
                                     // 8 seconds (it is complete well before the object starts)
                                     if variant == 0 && !object_first && ts_obj_rel > pub_t + 8.0 + 1.0 {
-                                        scns.push(Scn { insts: insts.clone(), ts_obj, object_first, sct, sct_hi_only, check, transit, inband_fti, cleanup: false, fdt_spread: 8.0, receive_once: true, no_close_flag: false });
+                                        scns.push(Scn { insts: insts.clone(), ts_obj, object_first, sct, sct_hi_only, check, transit, inband_fti, cleanup: false, fdt_spread: 8.0, receive_once: true, no_close_flag: false, fdt_version: 2 });
                                     }
                                 }
                             }
@@ -312,7 +319,7 @@ fn main() {
                 any |= !o.writers.is_empty() || o.fdt_callbacks > 0;
                 let delivered = o.writers.iter().any(|w| w.0.ends_with("C"));
                 let want = expected(s, skew);
-                let f = |v: Violation| v.with("sct", s.sct).with("sct_hi_only", s.sct_hi_only).with("cleanup_calls", s.cleanup).with("fdt_received_over_seconds", s.fdt_spread > 0.0).with("check", s.check).with("object_first", s.object_first).with("instances", s.insts.len() as u64).with("an_instance_without_sct", s.insts.iter().any(|i| i.no_sct)).with("instance_repeated", s.no_close_flag).with("receive_once", s.receive_once).with("skew_zero", skew == 0.0).with("skew_sign", if skew < 0.0 { "neg" } else { "pos" }).with("skew_abs_gt_1day", skew.abs() > 86400.0);
+                let f = |v: Violation| v.with("sct", s.sct).with("sct_hi_only", s.sct_hi_only).with("cleanup_calls", s.cleanup).with("fdt_received_over_seconds", s.fdt_spread > 0.0).with("check", s.check).with("object_first", s.object_first).with("instances", s.insts.len() as u64).with("an_instance_without_sct", s.insts.iter().any(|i| i.no_sct)).with("flute_version", s.fdt_version as u64).with("instance_repeated", s.no_close_flag).with("receive_once", s.receive_once).with("skew_zero", skew == 0.0).with("skew_sign", if skew < 0.0 { "neg" } else { "pos" }).with("skew_abs_gt_1day", skew.abs() > 86400.0);
                 if delivered != want {
                     cr.violations.push(f(Violation::new(if want { "valid_fdt_but_not_delivered" } else { "delivered_through_expired_fdt" }, format!(
                         "receiver skew {} s: object {} although the reference says {} (writers {:?}); scenario {:?}", skew, if delivered { "delivered" } else { "not delivered" }, if want { "deliver" } else { "do not deliver" }, o.writers, s)))
